@@ -286,6 +286,17 @@ func gen(t *rapid.T) Case {
 		}
 	}
 	c := Case{Files: s.Files, Config: cfggen.Draw(t, "gen", fields)}
+	if !sameBase && rapid.IntRange(0, 3).Draw(t, "federation") == 0 {
+		// a federation subgraph instead of the drawn schema, with or without explicit_requires
+		c.Files = map[string]string{"schema0.graphqls": sdlgen.FederationProbe}
+		c.Config.ResolverFields = nil
+		c.Config.Federation = []string{}
+		if rapid.IntRange(0, 2).Draw(t, "explicit-requires") != 0 {
+			c.Config.Federation = []string{"explicit_requires"}
+		}
+		vfrun.Label("federation:" + strings.Join(c.Config.Federation, ","))
+		splitModel = false
+	}
 	if splitModel {
 		c.Config.SplitModel = true
 		vfrun.Label("models-in-own-package")
